@@ -759,9 +759,11 @@ open CylcModel.Sched
 /-! #### the lifecycle relation of the property text -/
 
 /-- forward along waiting → preparing → submitted → running → succeeded | failed, with submit-failed
-reachable from waiting / preparing / submitted and expired from waiting only -/
+reachable from preparing / submitted and expired from waiting only.  A waiting task has no job: the only
+ways out of waiting are job preparation and expiry (a task waiting for its automatic retry must not be
+moved by the messages of the job that failed). -/
 def Fwd : Status → Status → Bool
-  | .waiting, _ => true
+  | .waiting, b => b == .waiting || b == .preparing || b == .expired
   | .preparing, b => b == .preparing || b == .submitted || b == .running || b == .succeeded || b == .failed ||
       b == .submitFailed
   | .submitted, b => b == .submitted || b == .running || b == .succeeded || b == .failed || b == .submitFailed
@@ -774,9 +776,13 @@ def Allowed (a b : Status) : Bool :=
 
 /-- the inputs on which cylc-flow by design leaves the lifecycle (each disjunct has a counterexample
 theorem in `Props/C09.lean` and a finding): a polled / internal message believed although it is behind
-the status; a job message after submit-failed or expired; `succeeded` after failed; and (unreachable,
-cf. `Good`) a repeated failure event of a finished task that still has a retry -/
+the status; a job message after submit-failed or expired; `succeeded` after failed; a job event for a
+waiting task that is NOT sitting out a retry (never submitted, no job exists: "waiting tasks normally
+advance to a new state due to any message" — while a task waiting for its automatic retry drops every
+message, `retry_pending_dropped`); and (unreachable, cf. `Good`) a repeated failure event of a finished
+task that still has a retry -/
 def Deviant (ot : Option TaskDefn) (flag : Flag) (x : Proxy) (msg : String) : Bool :=
+  (x.status == .waiting && (msg == "started" || msg == "succeeded" || msg == "failed" || msg == "submit-failed")) ||
   (msg == "started" && (x.status == .expired || x.status == .submitFailed ||
       (flag != .received && (x.status == .failed || x.status == .succeeded)))) ||
   (msg == "succeeded" && (x.status == .expired || x.status == .submitFailed || x.status == .failed)) ||
@@ -887,6 +893,15 @@ theorem lifecycle_step (ot : Option TaskDefn) (hs : StdOut ot) (f : Nat) (q : PS
     · obtain ⟨_, _, hst, _⟩ := sum_other ot (f + 2) q flag sn msg hd h1 h2 h3 h4 h5
       have : r.x.status = q.x.status := hst
       rw [this]; exact ⟨allowed_refl _, fun a b => absurd a b⟩
+
+/-- **a task waiting for its automatic retry (same submit number as the job that failed, a retry consumed)
+drops every message** — duplicates and late messages of the failed job, its poll results, any flag -/
+theorem retry_pending_dropped (ot : Option TaskDefn) (fuel : Nat) (ps : PS) (flag : Flag) (sn : Nat) (msg : String)
+    (htr : ps.tr = false) (hw : ps.x.status = .waiting) (hsn : ps.x.submitNum > 0)
+    (htry : ps.x.subTry > 0 ∨ ps.x.execTry > 0) : step ot fuel ps flag sn msg = (ps, false) := by
+  apply step_dropped
+  unfold dropped
+  rcases htry with h | h <;> simp [htr, hw, hsn, h]
 end CylcModel.Msg
 
 namespace CylcModel.Sched
